@@ -14,9 +14,10 @@ def main():
     with open(shard_file) as f:
         shard = json.load(f)
     faulthandler.enable()
-    wd = shard.get("watchdog_s")
-    if wd:
-        faulthandler.dump_traceback_later(wd, exit=True)
+    # the driver kills a shard at its limit; should the driver itself be gone by then (killed from outside), the worker
+    # must not run on as an orphan: it ends itself a little after that limit
+    wd = shard.get("watchdog_s") or (shard.get("timeout_s") or (900 if shard.get("tier", "quick") == "quick" else 5400)) + 180
+    faulthandler.dump_traceback_later(wd, exit=True)
     env.import_tpmstream()
     from .rec import Rec
 
